@@ -8,17 +8,24 @@ from streams import own
 
 TB = [
     "Lean 4.33 kernel; axioms allowed: propext, Classical.choice, Quot.sound (checked by #print axioms on every theorem)",
-    "the alias/clone table of Model/Ownership.lean (which entry point writes its receiver, which returns a fresh object) is transcribed by hand from minhash.py / signature.py / ffi/signature.rs and checked against the real objects after EVERY op of every history: content of all live objects, frozen flags and object identity classes",
+    "the alias/clone table of Model/Ownership.lean + Model/OwnObj.lean (which entry point writes its receiver, which returns a fresh object, what a signature / a view holds by value and what by reference) is transcribed by hand from minhash.py / signature.py / ffi/signature.rs / index/__init__.py / manifest.py / sbt.py / lca_db.py / search.py and checked against the real objects after EVERY op of every history: content of all live sketches, signatures and collection views, frozen flags, object identity classes, a view's own state (member references, selection dict, manifest row identities and keys, picklists) and what signatures() yields",
+    "selection semantics inside the view model (select_signature / CollectionManifest._select restricted to ksize, moltype, scaled, num, abund, containment over DNA k=21 sketches) duplicates a sliver of C12's model; k-mer hashing for add_sequence is C02's model (Murmur3 + SeqToHashes)",
+    "domain guards answered `bad-op` by BOTH sides: collections written to disk need pairwise distinct hash lists (C10.1), SBT / LCA_Database members one common scaled, LCA identifiers non-empty distinct names; picklists (name column) only on the in-place kinds",
     "CPython / cffi object lifetime and aliasing inside native code are observed, not proved",
 ]
 AS = ["PARTIAL by nature: the frame theorem is relative to the alias table; the monitor does the detecting",
       "read-only calls are executed twice in the adapter; float results compared bit-exactly (same process, same inputs)"]
-RULE = ("histories of 4..30 ops over 2-3 sketches and their copies: every mutator (incl. the track_abundance setter) on mutable and frozen objects, "
+RULE = ("flavours sigs/views/inplace: histories of 6..28 ops over 2-4 sketches, 2-6 signature objects and up to ~8 collection views "
+        "(SourmashSignature(mh,name,filename), .minhash getter/setter, name/filename setters, add_sequence/add_protein incl. invalid k-mers, "
+        "to_mutable/to_frozen/into_frozen/copy/pickle/update()/__setstate__, GatherDatabases.__init__, Index.counter_gather; LinearIndex, LazyLinearIndex, "
+        "ZipFileLinearIndex with/without manifest, MultiIndex, StandaloneManifestIndex, SBT, LCA_Database: select with 1-3 criteria incl. None values, "
+        "name picklists on the in-place kinds, insert, signatures()[i], manifest export / search / prefetch / gather run twice), all MODELLED; "
+        "flavours frozen/readonly/alias: histories of 4..30 ops over 2-3 sketches and their copies: every mutator (incl. the track_abundance setter) on mutable and frozen objects, "
         "to_mutable/to_frozen/into_frozen/copy/flatten/downsample/SourmashSignature(mh).minhash/+/&, and read-only calls "
         "(count_common, similarity, jaccard, containment family, angular, ANI, md5, pickle, &, |, flatten_and_* helpers, save+load, LinearIndex search/"
         "containment search/prefetch, gather, compare_all_pairs, MultiIndex manifest export) each executed twice; after every op the whole object table is "
         "dumped; non-trivial = >= 4 successful ops and at least one read-only call or frozen object; distinct = distinct op lists")
 
 if __name__ == "__main__":
-    streamlib.run_property("C15", own, ["frozen", "readonly", "alias"], own.oracle, 600, 20000, TB, AS, RULE,
+    streamlib.run_property("C15", own, ["frozen", "readonly", "alias", "sigs", "views", "inplace"], own.oracle, 900, 24000, TB, AS, RULE,
                            nontrivial=own.nontrivial)
